@@ -309,7 +309,6 @@ func runWorkers(bin, id, tier string, seed int64, runs, wall, nw int, work, repl
 		go func(i int) {
 			defer wg.Done()
 			out := filepath.Join(work, fmt.Sprintf("w%d%s.json", i, suffix))
-			cmd := exec.Command(bin, "-test.run", "^TestWorker$", "-test.timeout", "0", "-test.cpu", "1")
 			env := append(os.Environ(),
 				"VERIF_PROP="+id, "VERIF_TIER="+tier, fmt.Sprintf("VERIF_SEED=%d", seed),
 				fmt.Sprintf("VERIF_WORKER=%d", i), fmt.Sprintf("VERIF_NWORKERS=%d", nw),
@@ -324,16 +323,50 @@ func runWorkers(bin, id, tier string, seed int64, runs, wall, nw int, work, repl
 				rl := filepath.Join(work, fmt.Sprintf("race%d", i))
 				env = append(env, "VERIF_RACE=1", "GORACE=halt_on_error=0 log_path="+rl, "VERIF_RACELOG="+rl)
 			}
-			cmd.Env = env
-			var eb bytes.Buffer
-			cmd.Stderr = &eb
-			cmd.Stdout = &eb
-			err := cmd.Run()
-			stats[i].err = err
-			stats[i].stderr = eb.String()
-			b, rerr := os.ReadFile(out)
-			if rerr == nil && json.Unmarshal(b, &results[i]) == nil {
-				stats[i].ok = true
+			// A run whose fake clock never advances is ended by the worker's real-time
+			// watchdog. If the dump shows no goroutine waiting for a mutex, the stall is
+			// not a deadlock of the code under test (observed once in ~10^6 runs: a
+			// goroutine readied by a bubble timer stays "runnable" for ever under
+			// GOMAXPROCS=1): the run is abandoned, recorded, and the worker resumes
+			// behind it. A mutex wait in the dump is left to a human (exit 2).
+			start := 0
+			for attempt := 0; attempt < 4; attempt++ {
+				cmd := exec.Command(bin, "-test.run", "^TestWorker$", "-test.timeout", "0", "-test.cpu", "1")
+				cmd.Env = append(append([]string{}, env...), fmt.Sprintf("VERIF_START=%d", start))
+				var eb bytes.Buffer
+				cmd.Stderr = &eb
+				cmd.Stdout = &eb
+				err := cmd.Run()
+				stats[i].err = err
+				stats[i].stderr = eb.String()
+				b, rerr := os.ReadFile(out)
+				var wr workerResult
+				if rerr == nil && json.Unmarshal(b, &wr) == nil {
+					mergeWorker(&results[i], &wr)
+					stats[i].ok = true
+					break
+				}
+				se := eb.String()
+				if !strings.Contains(se, "WATCHDOG:") || strings.Contains(se, "[sync.Mutex.Lock") || strings.Contains(se, "[sync.RWMutex") {
+					break
+				}
+				if pb, perr := os.ReadFile(out + ".partial"); perr == nil {
+					var pr workerResult
+					if json.Unmarshal(pb, &pr) == nil {
+						mergeWorker(&results[i], &pr)
+					}
+					os.Remove(out + ".partial")
+				}
+				j, _ := os.ReadFile(out + ".journal")
+				f := strings.Fields(string(j))
+				if len(f) < 2 {
+					break
+				}
+				run, _ := strconv.Atoi(f[1])
+				abandonedMu.Lock()
+				abandoned = append(abandoned, fmt.Sprintf("seed=%s run=%s over=%s", f[0], f[1], strings.Join(f[2:], "")))
+				abandonedMu.Unlock()
+				start = run + 1
 			}
 		}(i)
 	}
@@ -382,6 +415,43 @@ func runWorkers(bin, id, tier string, seed int64, runs, wall, nw int, work, repl
 		crashes = append(crashes, f)
 	}
 	return results, crashes, 0
+}
+
+var (
+	abandonedMu sync.Mutex
+	abandoned   []string
+)
+
+// mergeWorker adds the result of a resumed worker process to what its
+// predecessors reported.
+func mergeWorker(dst, src *workerResult) {
+	if dst.Property == "" {
+		*dst = *src
+		return
+	}
+	dst.Evals += src.Evals
+	dst.Nontrivial = append(dst.Nontrivial, src.Nontrivial...)
+	dst.Shapes = append(dst.Shapes, src.Shapes...)
+	for k, v := range src.Faults {
+		dst.Faults[k] += v
+	}
+	for k, v := range src.Probes {
+		dst.Probes[k] += v
+	}
+	for k, v := range src.Strata {
+		dst.Strata[k] += v
+	}
+	for k, v := range src.KnownHits {
+		dst.KnownHits[k] += v
+	}
+	dst.SimNanos += src.SimNanos
+	dst.Failures = append(dst.Failures, src.Failures...)
+	dst.ViolCount += src.ViolCount
+	dst.Completed = src.Completed
+	dst.SweepDone = src.SweepDone
+	if src.WallS > dst.WallS {
+		dst.WallS = src.WallS
+	}
 }
 
 func panicInHarness(se string) bool {
@@ -527,28 +597,29 @@ func report(id, tier string, seed int64, meta *propMeta, results, raceResults []
 		}
 	}
 	cov := map[string]interface{}{
-		"evaluations":            evals,
-		"distinct_nontrivial":    len(nontrivial),
-		"rule":                   meta.Rule,
-		"samples":                samples,
-		"runs_per_hour":          int64(rph),
-		"seeds":                  []int64{seed},
-		"simulated_time_s":       float64(simNanos) / 1e9,
-		"faults_fired":           faults,
-		"probes_hit":             probes,
-		"probes_zero":            zero,
-		"distinct_interleavings": len(shapes),
-		"interleaving_measure":   "distinct hashes of the per-run sequence of (actor, event kind) in fake-time order",
-		"components_real":        meta.Real,
-		"components_stub":        meta.Stub,
-		"strata":                 strata,
-		"systematic_sweep_size":  sweepSize,
-		"systematic_sweep_done":  sweepDone,
-		"seeded_budget_done":     completed,
-		"race_build_evaluations": raceEvals,
-		"known_finding_hits":     knownHits,
-		"required_strata":        meta.Required,
-		"workers":                len(results),
+		"evaluations":                    evals,
+		"distinct_nontrivial":            len(nontrivial),
+		"rule":                           meta.Rule,
+		"samples":                        samples,
+		"runs_per_hour":                  int64(rph),
+		"seeds":                          []int64{seed},
+		"simulated_time_s":               float64(simNanos) / 1e9,
+		"faults_fired":                   faults,
+		"probes_hit":                     probes,
+		"probes_zero":                    zero,
+		"distinct_interleavings":         len(shapes),
+		"interleaving_measure":           "distinct hashes of the per-run sequence of (actor, event kind) in fake-time order",
+		"components_real":                meta.Real,
+		"components_stub":                meta.Stub,
+		"strata":                         strata,
+		"systematic_sweep_size":          sweepSize,
+		"systematic_sweep_done":          sweepDone,
+		"seeded_budget_done":             completed,
+		"race_build_evaluations":         raceEvals,
+		"known_finding_hits":             knownHits,
+		"required_strata":                meta.Required,
+		"runs_abandoned_to_the_watchdog": abandoned,
+		"workers":                        len(results),
 	}
 	if meta.Exhaustive && sweepDone {
 		cov["exhaustive"] = false // exhaustive over the generated corpus only, not over all inputs
